@@ -457,6 +457,56 @@ func (c *Ctx) ruleHandleReissues(rr *RuleRep, uses []handleUse, opts ...string) 
 		if capturesCli {
 			continue
 		}
+		// a bound method value x.M as handle: M itself must be a stage run on the (ctx, cli) it is given, for the request x stands for
+		if h.Synthetic != "" && u.MC != nil && len(u.MC.Bindings) == 1 {
+			var m *ssa.Function
+			eachInstr(h, func(in ssa.Instruction) {
+				if call, ok := in.(*ssa.Call); ok {
+					if g := c.StaticCalleeOf(&call.Call); g != nil && g.Pkg == c.Pkg {
+						m = g
+					}
+				}
+			})
+			var msite *reqSite
+			for _, s := range c.cachedSites() {
+				if s.F == m && (msite == nil || s.Kind == u.Site.Kind) {
+					msite = s
+				}
+			}
+			recv := c.Resolve(u.MC.Bindings[0])
+			switch {
+			case m == nil || len(m.Params) != 3 || msite == nil:
+				rr.Bad(key, h.Pos(), "the bound method handed out as retry handle is not a stage of the exchange (it writes no request packet itself)")
+			case msite.Ctx != ssa.Value(m.Params[1]) || msite.Cli != ssa.Value(m.Params[2]):
+				rr.Bad(key, h.Pos(), "the method handed out as retry handle does not run on the context and client given to Retry")
+			case func() bool {
+				// the receiver holds no client, signaller or channel of the first attempt
+				if pt, ok := m.Params[0].Type().Underlying().(*types.Pointer); ok {
+					if st, ok := pt.Elem().Underlying().(*types.Struct); ok {
+						for i := 0; i < st.NumFields(); i++ {
+							t := st.Field(i).Type()
+							if p, ok := t.(*types.Pointer); ok {
+								t = p.Elem()
+							}
+							if n, ok := t.(*types.Named); ok && (n.Obj().Name() == "BaseClient" || n.Obj().Name() == "signaller") {
+								return true
+							}
+							if _, isChan := t.Underlying().(*types.Chan); isChan {
+								return true
+							}
+						}
+					}
+				}
+				return false
+			}() && !noCapture:
+				rr.Bad(key+"/captures-client", h.Pos(), "the receiver of the method handed out as retry handle holds a client, signaller or channel of the first attempt")
+			case !c.sameRequestObject(u.Site, msite, recv):
+				rr.Bad(key, h.Pos(), "the retry handle is bound to an object that does not stand for the enclosing call's own request")
+			default:
+				rr.OK(key, h.Pos(), "handle = %s bound to the request object of the enclosing call; it is a stage run on the context and client given to Retry", FuncName(m))
+			}
+			continue
+		}
 		isStage := false
 		for _, s := range c.cachedSites() {
 			if s.F == h {
@@ -745,4 +795,36 @@ func (c *Ctx) errCauseNonNil(f *ssa.Function, ev ssa.Value, at ssa.Instruction) 
 		return nonNil(call.Call.Args[0])
 	}
 	return false
+}
+
+// sameRequestObject: recv (the receiver a method-value handle is bound to) is the object whose message field is the message
+// the enclosing site sends — the site's message is the value stored into a field of the freshly built recv, or a load of a
+// field of recv — and the stage the handle enters sends a message field of its own receiver.
+func (c *Ctx) sameRequestObject(site, msite *reqSite, recv ssa.Value) bool {
+	if site.Msg == nil || msite.Msg == nil {
+		return site.Kind != "publish" && site.Kind != "pubrel"
+	}
+	fieldOfObj := func(msg ssa.Value, obj ssa.Value) bool {
+		if ld, ok := msg.(*ssa.UnOp); ok && ld.Op == token.MUL {
+			if fa, ok := ld.X.(*ssa.FieldAddr); ok && c.Resolve(fa.X) == obj {
+				return true
+			}
+		}
+		if al, ok := obj.(*ssa.Alloc); ok {
+			for _, u := range *al.Referrers() {
+				if fa, ok := u.(*ssa.FieldAddr); ok {
+					for _, uu := range *fa.Referrers() {
+						if st, ok := uu.(*ssa.Store); ok && st.Addr == ssa.Value(fa) && c.Resolve(st.Val) == msg {
+							return true
+						}
+					}
+				}
+			}
+		}
+		return false
+	}
+	if !fieldOfObj(site.Msg, recv) {
+		return false
+	}
+	return len(msite.F.Params) > 0 && fieldOfObj(msite.Msg, ssa.Value(msite.F.Params[0]))
 }
